@@ -131,13 +131,18 @@ class SolutionTracks(Tracks):
             ndim=tracks.ndim,
             features=tracks.features,
         )
-        if force_recompute:
-            soln_tracks.enable_features(
-                [
-                    soln_tracks.features.tracklet_key,  # type: ignore[list-item]
-                    soln_tracks.features.lineage_key,  # type: ignore[list-item]
-                ]
+        # a plain Tracks does not register the track and lineage ids as features: enable
+        # them here so that the track annotator keeps them up to date, recomputing only
+        # if the ids found on the graph are incomplete
+        id_keys = [
+            key
+            for key in (
+                soln_tracks.features.tracklet_key,
+                soln_tracks.features.lineage_key,
             )
+            if key in soln_tracks.annotators.all_features
+        ]
+        soln_tracks.enable_features(id_keys, recompute=force_recompute)
         return soln_tracks
 
     @property
